@@ -589,13 +589,13 @@ impl Scenario for Dual {
             let mut la: Vec<Res> = Vec::new();
             let mut lb: Vec<Res> = Vec::new();
             for (j, b) in b2.iter().enumerate() {
-                if clear_at.map(|n| n.min(b2.len() - 1).max(1)) == Some(j) {
+                if clear_at.map(|n| n.min(b2.len() - 1)) == Some(j) {
                     host_a.clear();
                 }
                 la.push(Res::of(&host_a.add_byte(*b)));
             }
             for (j, b) in b1.iter().enumerate() {
-                if clear_at.map(|n| n.min(b1.len() - 1).max(1)) == Some(j) {
+                if clear_at.map(|n| n.min(b1.len() - 1)) == Some(j) {
                     host_b.clear();
                 }
                 lb.push(Res::of(&host_b.add_byte(*b)));
